@@ -23,6 +23,18 @@ chk("C07","Bounded exhaustive exploration of the real ValuesForPath/ValueForPath
 chk("C08","Bounded exhaustive exploration of ValuesForKey/ValueForKey/PathsForKey/PathForKeyShortest and of sub-key filtering in ValuesForKey/ValuesForPath/Exists: every Map template up to a node bound x every key x every set of 1-2 sub-key conditions (typed, wildcard, negated, both field separators); results compared with a reference search, path set and filter predicate; consistency of values-through-paths with ValuesForKey; all map-iteration orders within a deviation bound (including the order of the condition table).",
     TB+"Reference: mc/harness/c08.go (refKey, refKeyPaths, refSubKeys). Bounds: <=6/7 nodes (search), <=5/6 nodes with typed leaves (filters). One open known finding (list-in-list consistency).",
     "explicit enumeration of inputs + deviation-bounded DFS over map-order choice points on the implementation, lock-step reference model")
+chk("C09","Bounded exhaustive exploration of LeafNodes/LeafPaths/LeafValues: every Map template up to a node bound over ordinary, attribute-prefixed, text-key, empty and special-character keys (null leaves included) and Maps decoded from the XML universe, under 4 attribute prefixes x no-attributes x dot-notation, in ascending and descending map order; compared with a reference leaf enumeration, projections checked, and every leaf path resolved through ValuesForPath.",
+    TB+"Reference: mc/harness/c09.go (refLeaves). Bounds: <=5/6 nodes; resolution clause restricted as the property states.",
+    "explicit small-scope enumeration of (Map, configuration) on the implementation with a lock-step reference model; owned map order")
+chk("C10","Bounded exhaustive exploration of UpdateValuesForPath: every Map template up to a node bound x new values (map and string forms, typed) x every path of <=3 steps over keys and wildcards in both addressing forms x sub-key sets; relational oracle on a deep copy (frame, location against a reference addressed set, sub-keys, count, count-copies via ValuesForPath); map order explored (ascending, descending, every single deviation for wildcard paths).",
+    TB+"Reference: mc/harness/c10.go (refLocs, c10Addressed). Bounds: <=5/6 nodes, paths <=3 steps.",
+    "explicit enumeration of inputs + deviation-bounded DFS over map-order choice points on the implementation, relational oracle against a reference model")
+chk("C11","Bounded exhaustive exploration of SetValueForPath/Remove/RenameKey: every Map template up to a node bound (null leaves, no empty lists) x all dot-paths of <=3 segments x new names; oracle: structural diff against a deep copy plus a write monitor on the frozen receiver (no store on failure), exactly-one-entry frame and post-conditions on success, liveness on the nested-map domain, refusal of rename onto an existing (possibly null) sibling at any depth.",
+    TB+"Write monitor = build-time instrumentation of every map/slice store in mxj. Bounds: <=5/6 nodes.",
+    "explicit small-scope enumeration of (Map, operation) on the implementation; differential before/after oracle + store monitor")
+chk("C12","Bounded exhaustive exploration of NewMap: every Map template up to a node bound x every single key pair (plain/wildcard/indexed old paths, dotted new paths, shorthand, malformed forms) and every list of two pairs from a reduced set incl. equal/extending new paths; oracle: receiver deep-equal AND no monitored store into any container reachable from it (decides aliasing writes), malformed => error, exact content vs a reference projection when new paths do not overlap.",
+    TB+"Write monitor as in C11. Content oracle uses ValuesForPath on a pristine copy (validated by C07). Bounds: <=5/6 nodes (single pairs), <=4/5 (pair lists).",
+    "explicit small-scope enumeration of (Map, key pairs) on the implementation; store monitor + reference projection")
 ALL=["C%02d"%i for i in range(1,21)]
 na=[{"property_id":p,"reason":"check not built yet in this round (planned: see DESIGN.md section 6); will be claimed once its harness is committed"} for p in ALL if p not in C]
 m={"version":1,
